@@ -230,6 +230,13 @@ package signaling_rpc_server
 //@   cs Server.mtx ensures forall t *sessionPeerTracker trigger t.recv :: old(isobj(t)) ==> (t.recvClear == old(t.recvClear) || t.recvClear == nil) && (t.outAcked == old(t.outAcked) || t.outAcked == nil) && (t.recv == old(t.recv) || t.recv == nil) && (t.recvSent == old(t.recvSent) || t.recvSent == nil)
 //@   cs Server.mtx ensures forall t *sessionPeerTracker trigger t.recv :: old(isobj(t)) && (t.recv != old(t.recv) || t.recvSent != old(t.recvSent) || t.recvClear != old(t.recvClear) || t.outAcked != old(t.outAcked)) ==> old((localIsPeerA && sess.peerA == ourPeerTkr && sess.peerB == t) || (!localIsPeerA && sess.peerB == ourPeerTkr && sess.peerA == t))
 //@   cs Server.mtx ensures old((localIsPeerA && sess.peerA == ourPeerTkr) || (!localIsPeerA && sess.peerB == ourPeerTkr)) ==> !(srcPeerIDStr in dstPeer.wantPeers)
+// C25 (no leftover state): the cleanup of a still-attached call always attempts the release of the destination's
+// tracker, whoever created it; if the tracker this call registered its want with is still registered afterwards,
+// a Listen call is attached to it or some peer still wants a session with it
+//@   cs Server.mtx ensures old((localIsPeerA && sess.peerA == ourPeerTkr) || (!localIsPeerA && sess.peerB == ourPeerTkr)) ==> called(maybeReleasePeer) && called(maybeReleaseSession)
+//@   cs Server.mtx ensures old((localIsPeerA && sess.peerA == ourPeerTkr) || (!localIsPeerA && sess.peerB == ourPeerTkr)) && (dstPeerIDStr in self.peers) && self.peers[dstPeerIDStr] == dstPeer ==> dstPeer.listening || len(dstPeer.wantPeers) != 0
+//@   assert at call maybeReleasePeer: arg0 == dstPeerIDStr
+//@   assert at call maybeReleaseSession: arg0 == sessKey
 //@   cs Server.mtx ensures forall k sessionKey trigger dom(self.sessions, k) :: k != sessKey ==> ((k in self.sessions) <==> old(k in self.sessions)) && self.sessions[k] == old(self.sessions[k])
 //@   cs Server.mtx ensures forall p string trigger dom(self.peers, p) :: p != dstPeerIDStr ==> ((p in self.peers) <==> old(p in self.peers)) && self.peers[p] == old(self.peers[p])
 
